@@ -84,6 +84,89 @@ void encode_len(u8* p, unsigned L, bool big, u64 v)
     }
 }
 
+#if __cplusplus >= 202002L
+// ---- constant evaluation vs run time (C++20): the same scripted history, once inside a constexpr
+// initialiser and once at run time, must leave identical bytes (sbepp.hpp has separate branches for
+// constant evaluation, e.g. string_length and get/set_primitive).
+#    include <array>
+template<typename Len, sbepp::endian E>
+constexpr std::array<char, 48> ce_script(int which)
+{
+    std::array<char, 48> b{};
+    for(auto& c : b) c = '.';
+    sbepp::detail::dynamic_array_ref<char, char, Len, E> v{b.data(), b.size()};
+    v.clear();
+    if(which == 0)
+    {
+        v.assign_string("abc");
+        v.push_back('d');
+        v.insert(v.begin() + 1, 'x');
+        v.erase(v.begin());
+        v.resize(6, 'q');
+        v.pop_back();
+        v.insert(v.begin() + 2, 3, 'm');
+    }
+    else if(which == 1)
+    {
+        v.assign(3, 'z');
+        v.insert(v.begin() + 1, 2, 'y');
+        v.erase(v.begin() + 1, v.begin() + 3);
+        v.assign_string("hello");
+        v.clear();
+        v.assign_string("k");
+        v.push_back('!');
+    }
+    else
+    {
+        v.assign({'a', 'b', 'c'});
+        v.insert(v.end(), {'d', 'e'});
+        v.resize(7);
+        v.resize(2);
+        constexpr std::array<char, 4> src{'w', 'x', 'y', 'z'};
+        v.assign_range(src);
+        v.push_back('!');
+        v.insert(v.begin(), src.begin(), src.begin() + 2);
+    }
+    return b;
+}
+
+template<typename Len, sbepp::endian E>
+bool ce_same()
+{
+    static constexpr auto c0 = ce_script<Len, E>(0);
+    static constexpr auto c1 = ce_script<Len, E>(1);
+    static constexpr auto c2 = ce_script<Len, E>(2);
+    volatile int w0 = 0, w1 = 1, w2 = 2; // run-time arguments: no constant evaluation
+    return ce_script<Len, E>(w0) == c0 && ce_script<Len, E>(w1) == c1 && ce_script<Len, E>(w2) == c2;
+}
+
+inline int ce_first_difference()
+{
+    int k = 0;
+    if(!ce_same<sbepp::uint8_t, sbepp::endian::little>()) return k;
+    k++;
+    if(!ce_same<sbepp::uint8_t, sbepp::endian::big>()) return k;
+    k++;
+    if(!ce_same<sbepp::uint16_t, sbepp::endian::little>()) return k;
+    k++;
+    if(!ce_same<sbepp::uint16_t, sbepp::endian::big>()) return k;
+    k++;
+    if(!ce_same<sbepp::uint32_t, sbepp::endian::little>()) return k;
+    k++;
+    if(!ce_same<sbepp::uint32_t, sbepp::endian::big>()) return k;
+    k++;
+    if(!ce_same<sbepp::uint64_t, sbepp::endian::little>()) return k;
+    k++;
+    if(!ce_same<sbepp::uint64_t, sbepp::endian::big>()) return k;
+    return -1;
+}
+#else
+inline int ce_first_difference()
+{
+    return -1; // no constant evaluation of these functions before C++20
+}
+#endif
+
 struct OpRes
 {
     long long ret_index = -1; // returned iterator - begin(), or -1
@@ -296,6 +379,14 @@ void run_plan(Exec& ex, DoOp do_op)
         opi++;
         if(c.res.violation) break;
         const std::string& n = op.name;
+        if(n == "consteval_compare")
+        {
+            const int k = ce_first_difference();
+            sim::stats().count("op.consteval_compare");
+            if(k >= 0) ex.fail("consteval-differs", op, "a scripted history evaluated inside a constexpr initialiser leaves other bytes than the same history at run time (configuration " + std::to_string(k) + " of 8: length uint8/16/32/64 x little/big)");
+            c.fp.add(opi);
+            continue;
+        }
         // ---- fault ops (medium-level) ----
         if(n == "corrupt_len")
         {
@@ -717,6 +808,12 @@ Plan gen_plan(u64 seed, const std::string& prop, const std::string& tier)
     u64 s0 = ini.chance(1, 3) ? 0 : ini.chance(1, 4) ? lim : ini.below(lim + 1);
     if(buf >= L) encode_len(init.data(), L, p.geti("E") != 0, s0);
     p.set("init", "x" + sim::hex(init));
+    if(!capmode && seed % 512 == 7)
+    {
+        Op ce;
+        ce.name = "consteval_compare";
+        p.ops.push_back(ce);
+    }
     const int nops = (int)wl.range(1, wl.chance(1, 4) ? 60 : 12);
     for(int i = 0; i < nops; i++)
     {
